@@ -1,5 +1,41 @@
 import RV.Json
+import RV.Drv.Traffic
+import RV.Model.TRSM
+import RV.Oracle.TRSM
 namespace RV.Drv.TRSM
-open Lean RV
-def handle : Handler := fun op _ _ => .error s!"TRSM: op {op} not implemented"
+open Lean RV RV.Traffic RV.TRSM RV.Drv.Traffic RV.Oracle.TRSM
+
+def phaseOf : String → Phase
+  | "" => .empty | "Initial" => .initial | "Healthy" => .healthy | "Progressing" => .progressing
+  | "Finalizing" => .finalizing | "Terminating" => .terminating | _ => .other
+def phaseStr : Phase → String
+  | .empty => "" | .initial => "Initial" | .healthy => "Healthy" | .progressing => "Progressing"
+  | .finalizing => "Finalizing" | .terminating => "Terminating" | .other => "Weird"
+
+def trOfJson (j : Json) : R TR := do
+  return { deleting := ← fBool j "deleting", hasFinalizer := ← fBool j "hasFinalizer", progressing := ← fNat j "progressing",
+           phase := phaseOf (← fStr j "phase"), weight := ← fOptNat j "weight", grace := ← fNat j "grace" }
+def trToJson (t : TR) : Json :=
+  mkObj [("deleting", boolJ t.deleting), ("hasFinalizer", boolJ t.hasFinalizer), ("progressing", natJ t.progressing),
+    ("phase", strJ (phaseStr t.phase)), ("weight", optJ natJ t.weight), ("grace", natJ t.grace)]
+
+def handle : Handler := fun op inp impl => do
+  match op with
+  | "reconcile" =>
+    let w : World := { tr := ← trOfJson (← jget inp "tr"), net := ← netOfJson (← jget inp "net"), mem := ← memOfJson (← jget inp "mem") }
+    let r := reconcile w
+    -- a vanished object is reported with the input phase by the harness
+    let trOut := if r.gone then { r.w.tr with phase := w.tr.phase } else r.w.tr
+    let model := mkObj [("requeue", boolJ r.requeue), ("err", boolJ r.err), ("gone", boolJ r.gone), ("tr", trToJson trOut),
+                        ("net", netToJson r.w.net), ("mem", memToJson r.w.mem)]
+    let holds ← (match jopt impl "panic" with
+      | some _ => pure [("C09.tr_no_panic", false)]
+      | none => do
+        let t' ← trOfJson (← jget impl "tr")
+        let n' ← netOfJson (← jget impl "net")
+        pure [("C18.tr_finalizer_guard", finalizerGuard w t' n')])
+    return { model := model, holds := holds,
+             tags := [s!"phase:{phaseStr w.tr.phase}", if w.tr.deleting then "deleting" else "live", if r.finalised then "finalised" else "notfinalised"] }
+  | _ => .error s!"trsm: unknown op {op}"
+
 end RV.Drv.TRSM
